@@ -428,22 +428,39 @@ fn exec_c17(sc: &C17Scenario) -> Outcome {
     // ---- regeneration over files that are not pristine: generate must leave a consistent triple again
     if out.violations.is_empty() && sc.only.is_empty() {
         let mut rng2 = Rng::new(sc.tamper_seed ^ 0x5eed);
-        let junk: &[u8] = *rng2.pick(&[&b"\n"[..], &b"\n\n      \n"[..], &b"  // stale tail from an older, longer lockfile .......................\n"[..]]);
-        let mut lock = orig[2].clone();
-        if rng2.chance(1, 2) {
-            // a formatter has pretty-printed the lockfile
-            if let Ok(v) = serde_json::from_slice::<Value>(&orig[2]) {
-                lock = serde_json::to_vec_pretty(&v).unwrap_or(lock);
+        if rng2.chance(1, 3) {
+            // only the generated file is damaged (source and lockfile are as generate left them): generating again
+            // from the same input must repair it
+            let mut g = orig[1].clone();
+            match rng2.below(3) {
+                0 => g.truncate(g.len() / 2),
+                1 => g.extend_from_slice(b"\n// local edit\n"),
+                _ => {
+                    if let Some(b) = g.get_mut(7) {
+                        *b = if *b == b'x' { b'y' } else { b'x' };
+                    }
+                }
             }
+            let _ = std::fs::write(&paths[1], &g);
+            out.fault("regenerate_over_a_damaged_generated_file", 1);
+        } else {
+            let junk: &[u8] = *rng2.pick(&[&b"\n"[..], &b"\n\n      \n"[..], &b"  // stale tail from an older, longer lockfile .......................\n"[..]]);
+            let mut lock = orig[2].clone();
+            if rng2.chance(1, 2) {
+                // a formatter has pretty-printed the lockfile
+                if let Ok(v) = serde_json::from_slice::<Value>(&orig[2]) {
+                    lock = serde_json::to_vec_pretty(&v).unwrap_or(lock);
+                }
+            }
+            lock.extend_from_slice(junk);
+            let _ = std::fs::write(&paths[2], &lock);
+            if rng2.chance(1, 2) {
+                let mut src2 = orig[0].clone();
+                src2.extend_from_slice(b"// edited\n");
+                let _ = std::fs::write(&paths[0], &src2);
+            }
+            out.fault("regenerate_over_a_longer_or_reformatted_lockfile", 1);
         }
-        lock.extend_from_slice(junk);
-        let _ = std::fs::write(&paths[2], &lock);
-        if rng2.chance(1, 2) {
-            let mut src2 = orig[0].clone();
-            src2.extend_from_slice(b"// edited\n");
-            let _ = std::fs::write(&paths[0], &src2);
-        }
-        out.fault("regenerate_over_a_longer_or_reformatted_lockfile", 1);
         let g2 = w.cli_stdin(&["config", "generate"], input.to_string().as_bytes());
         if g2.code != Some(0) {
             out.violate("accept_untouched", "regenerate_failed", format!("config generate over an existing (edited) lockfile failed: {}", g2.err_str().trim()));
